@@ -4,6 +4,9 @@ package pqueue
 
 // Verification hooks (see verif_on.go); with the verif build tag off these are empty and inlined away.
 
+// vpState is per queue state of the hooks, empty without the verif tag.
+type vpState struct{}
+
 func vpEvent[T any](kind string, q *Queue[T], e *T)  {}
 func vpEventU[T any](kind string, q *Queue[T], e *T) {}
 func vpGate[T any](point string, q *Queue[T], e *T)  {}
